@@ -210,6 +210,207 @@ def check_nested(run: lib.Run):
                                           "spec": "a decision made by another engine inside a checker call saw this engine's checker / memo (or vice versa)"})
 
 
+# ----------------------------------------------------------------------------- translated source vs python (C13_translated)
+
+
+class _RecChecker:
+    """a relationship checker whose `check` records its arguments and answers from `behave(call index, subject, relation, resource)`:
+    a value to return, or an exception class to raise"""
+
+    def __init__(self, behave, rows: list):
+        self.behave, self.rows, self.n = behave, rows, 0
+
+    def check(self, subject, relation, resource, *, context=None):
+        import copy
+        args = [subject, relation, resource, copy.deepcopy(context)]
+        self.n += 1
+        out = self.behave(self.n, subject, relation, resource)
+        if isinstance(out, type) and issubclass(out, BaseException):
+            self.rows.append([args, {"err": "raised:" + out.__name__}])
+            raise out("rel backend down")
+        self.rows.append([args, {"ok": out}])
+        return out
+
+
+REL_EXPRS = [
+    "viewer", "", "owner", 5, None, True, [], ["viewer"], 1.5, {}, {"relation": "viewer"}, {"relation": ""}, {"relation": None}, {"relation": 5},
+    {"relation": 0}, {"relation": ["x"]}, {"relation": "viewer", "subject": "user:9"}, {"relation": "viewer", "subject": "bob", "resource": "7"},
+    {"relation": "viewer", "subject": "", "resource": ""}, {"relation": "viewer", "subject": 5, "resource": 7}, {"relation": "viewer", "subject": ":", "resource": "a:b:c"},
+    {"relation": "viewer", "resource": "doc:7", "ctx": {"ip": "10.0.0.1"}}, {"relation": "viewer", "ctx": {"k": 2, "new": [1, {"z": 1, "a": 2}]}},
+    {"relation": "viewer", "subject": {"attr": "context.s"}, "resource": {"attr": "resource.id"}}, {"relation": "viewer", "subject": {"attr": "context.n"}},
+    {"relation": "viewer", "subject": {"attr": "context.missing.deeper"}, "resource": {"attr": "subject.id"}}, {"relation": "viewer", "ctx": {}},
+    {"relation": "viewer", "ctx": 5}, {"relation": "viewer", "ctx": None}, {"relation": "viewer", "ctx": {"ip": None}}, {"relation": "viewer", "subject": None, "resource": None},
+    {"relation": "viewer", "subject": {"attr": "context.s"}, "ctx": {"ip": "10.0.0.1", "k": 1.0}},
+]
+
+REL_ENVS = [
+    {"subject": {"id": "u1"}, "action": "read", "resource": {"type": "doc", "id": "1"}, "context": {"s": "bob", "n": 5}},
+    {"subject": {"id": "alice", "roles": []}, "action": "read", "resource": {"type": "doc", "id": 7, "attrs": {}}, "context": {"_rebac": {"ip": "1.1.1.1", "k": 0}, "s": "user:9"}},
+    {"subject": {"id": None}, "resource": {"type": None, "id": None}, "context": {"_rebac": {}}},
+    {"subject": {"id": 1}, "resource": {"type": "file", "id": "1"}},
+    {"subject": {"id": 1.5}, "resource": {"type": 0, "id": 0}, "context": None},
+    {"subject": {}, "resource": None, "context": {"_rebac": None, "s": ""}},
+    {"resource": {"id": "x"}, "context": {"_rebac": {"b": 1, "a": {"y": 1, "x": 2}}, "s": "a:b"}},
+    {}, {"subject": None, "resource": {"type": "doc"}}, {"subject": {"id": "u"}, "resource": "doc", "context": {}}, {"subject": {"id": "u"}, "resource": {"type": "doc"}, "context": 5},
+    {"subject": {"id": "u"}, "resource": {"type": "doc"}, "context": {"_rebac": 5}}, {"subject": {"id": "u"}, "resource": {"type": ["doc"], "id": [1]}, "context": {"_rebac": {"k": 1}}},
+]
+
+MEMO_KINDS = ["empty", "none", "hit", "miss", "list", "hit-falsy", "hit-truthy"]
+
+
+def _behaviours():
+    from rbacx.core.policy import ConditionTypeError
+    vals = [True, False, None, 1, 0, "", "yes", [], [0], 1.5]
+    out = [("always-" + repr(v), (lambda v: lambda n, s, r, o: v)(v)) for v in vals]
+    for cls in (RuntimeError, TimeoutError, OSError, KeyError, ConditionTypeError):
+        out.append(("raises-" + cls.__name__, (lambda c: lambda n, s, r, o: c)(cls)))
+    return out
+
+
+def rel_leaf_cases(run: lib.Run, scale: int = 1):
+    """(rel expression, env, checker behaviour | None, memo kind, event loop set?)"""
+    r = random.Random(run.seed * 7129 + 13)
+    beh = _behaviours()
+    k = 0
+    for expr in REL_EXPRS:
+        for env in REL_ENVS:
+            k += 1
+            for j in range(2 if run.tier == "quick" else 6):
+                b = None if (k + j) % 9 == 0 else beh[(k * 5 + j * 7) % len(beh)]
+                yield expr, env, b, MEMO_KINDS[(k + 3 * j) % 7], (k + j) % 5 == 0
+    for _ in range((300 if run.tier == "quick" else 3000) * scale):
+        yield gen.choice(r, REL_EXPRS), gen.choice(r, REL_ENVS), (None if r.random() < 0.1 else gen.choice(r, beh)), \
+            gen.choice(r, MEMO_KINDS), r.random() < 0.25
+
+
+def translated_vs_python(run: lib.Run) -> tuple[bool, str]:
+    """the translated `rel` branch (Generated.Src.rel_range: state-and-exception-passing, harness/pytolean_rel.py) and the translated
+    `_canon_subject` / `_canon_resource`, evaluated by `lake env lean --run Rbacx/Run/SrcEvalRel.lean`, against the REAL
+    `eval_condition({"rel": …}, env)` with recording / raising / absent checkers, empty / pre-filled / absent / non-dict memos and with or
+    without an event loop in EVAL_LOOP: the result (or WHICH exception), the list of checker calls (subject, relation, resource, merged
+    context) and the content of the memo afterwards.  Externals of the translation (`getattr`, `_ctx_hash`, `resolve_awaitable_in_worker`)
+    and the checker's outcomes are tables of what the real run did.  Validates harness/pytolean_rel.py and Model/PyRel.lean."""
+    import builtins
+    import copy
+    import subprocess
+    from props import c04
+    from rbacx.core import policy as rpolicy
+    from rbacx.core.relctx import EVAL_LOOP, REL_CHECKER, REL_LOCAL_CACHE
+    rec = c04._ExtRecorder()
+    real_hash, real_raw = rpolicy._ctx_hash, rpolicy.resolve_awaitable_in_worker
+
+    def fresh_rows():
+        rec.rows, rec.bad = {"getattr": {}, "_ctx_hash": {}, "resolve_awaitable_in_worker": {}}, False
+
+    def rec_getattr(obj, name, *default):
+        return rec.note("getattr", [obj, name, *default], lambda: builtins.getattr(obj, name, *default))
+
+    def rec_hash(ctx):
+        return rec.note("_ctx_hash", [ctx], lambda: real_hash(ctx))
+
+    def rec_raw(res, loop, timeout=None):
+        # the event loop is a stub: what the resolution does to a value is decided here (identity, or a timeout for one value)
+        def go():
+            if res == "yes":
+                raise TimeoutError("stub: the awaitable did not resolve")
+            return res
+        return rec.note("resolve_awaitable_in_worker", [res, "<object>", timeout], go)
+
+    def run_real(cond, env, behave, memo, loop):
+        rows: list = []
+        toks = [(REL_CHECKER, REL_CHECKER.set(None if behave is None else _RecChecker(behave, rows))), (REL_LOCAL_CACHE, REL_LOCAL_CACHE.set(memo)),
+                (EVAL_LOOP, EVAL_LOOP.set(object() if loop else None))]
+        try:
+            return c04._outcome(lambda: rpolicy.eval_condition(copy.deepcopy(cond), copy.deepcopy(env))), rows
+        finally:
+            for var, tok in reversed(toks):
+                var.reset(tok)
+
+    def enc_memo(memo):
+        return [[proto.enc(k_), proto.enc(v_)] for k_, v_ in memo.items()] if isinstance(memo, dict) else None
+
+    calls, skipped = [], 0
+    rpolicy.getattr, rpolicy._ctx_hash, rpolicy.resolve_awaitable_in_worker = rec_getattr, rec_hash, rec_raw
+    try:
+        for expr, env, beh, memo_kind, loop in rel_leaf_cases(run, run.boost):
+            cond = {"rel": expr, "==": [1, 2]}
+            behave = None if beh is None else beh[1]
+            fresh_rows()
+            memo: object = {}
+            if memo_kind in ("hit", "hit-falsy", "hit-truthy", "miss"):
+                probe: dict = {}
+                run_real(cond, env, (lambda n, s, r_, o: True) if behave is None else behave, probe, False)
+                if memo_kind == "miss":
+                    memo = {(k_[0], str(k_[1]) + "x") + tuple(k_[2:]): True for k_ in probe} | {("a", "b", "c", ""): False}
+                else:
+                    pick = {"hit": lambda v: v, "hit-falsy": lambda v: [0, None, "", []][len(str(v)) % 4], "hit-truthy": lambda v: [1, "no", [0]][len(str(v)) % 3]}[memo_kind]
+                    memo = {("z", "z", "z", "z"): True} | {k_: pick(v_) for k_, v_ in probe.items()}
+                fresh_rows()
+            elif memo_kind == "none":
+                memo = None
+            elif memo_kind == "list":
+                memo = []
+            before = copy.deepcopy(memo)
+            want, rows = run_real(cond, env, behave, memo, loop)
+            try:
+                line = {"fn": "rel_range", "args": [proto.enc(cond), proto.enc(env)], "oracle": proto.build_oracle(cond, env),
+                        "ext": {k_: list(v_.values()) for k_, v_ in rec.rows.items()},
+                        "checker": None if behave is None else [[[proto.enc(a) for a in args], ({"ok": proto.enc(o["ok"])} if "ok" in o else o)] for args, o in rows],
+                        "eval_loop": loop, "memo": enc_memo(before)}
+                expect = {"res": want, "memo": enc_memo(memo), "calls": [[proto.enc(a) for a in args] for args, _o in rows]}
+            except TypeError:
+                skipped += 1
+                continue
+            if want is None or rec.bad:
+                skipped += 1
+                continue
+            calls.append((json.dumps(line), expect, f"rel|{memo_kind}|{'no checker' if beh is None else beh[0]}|loop={loop}", (cond, env)))
+        for env in REL_ENVS:
+            for ov in [None, "bob", "user:9", "", ":", "a:b:c", 5, 0, True, [], ["x"], {}, {"attr": "context.s"}, {"attr": "context.n"}, {"attr": "resource.id"},
+                       {"attr": "subject.id"}, {"attr": "context.missing.deeper"}, {"attr": "resource.type"}, {"attr": 5}, {"x": 1}]:
+                for fn, f in (("_canon_subject", rpolicy._canon_subject), ("_canon_resource", rpolicy._canon_resource)):
+                    fresh_rows()
+                    want = c04._outcome(lambda: f(copy.deepcopy(env), copy.deepcopy(ov)))
+                    if ov is None and want != c04._outcome(lambda: f(copy.deepcopy(env))):
+                        return False, f"{fn}: the default of `override` is not None"
+                    if want is None or rec.bad:
+                        skipped += 1
+                        continue
+                    line = {"fn": fn, "args": [proto.enc(env), proto.enc(ov)], "oracle": proto.build_oracle(env, ov), "ext": {"getattr": list(rec.rows["getattr"].values())}}
+                    calls.append((json.dumps(line), want, fn, (env, ov)))
+    finally:
+        del rpolicy.getattr
+        rpolicy._ctx_hash, rpolicy.resolve_awaitable_in_worker = real_hash, real_raw
+    p = subprocess.run(["lake", "env", "lean", "--run", "Rbacx/Run/SrcEvalRel.lean"], cwd=lib.LEAN, input="\n".join(c[0] for c in calls) + "\n",
+                       capture_output=True, text=True, timeout=900)
+    outs = [ln for ln in p.stdout.split("\n") if ln]
+    if p.returncode != 0 or len(outs) != len(calls):
+        return False, "SrcEvalRel: " + (p.stderr or p.stdout)[-800:]
+    bad = unrepresented = 0
+    for (_line, want, label, raw), ln in zip(calls, outs):
+        got = json.loads(ln)
+        res = got.get("res", got)
+        if isinstance(res, dict) and res.get("err") == "raised:NotRepresented":
+            unrepresented += 1      # an operation on a value Model/PyRel.lean / PyExcept.lean deliberately do not represent (dict(<list of pairs>), …)
+            continue
+        wres = want.get("res", want)
+        run.count("translated-rel")
+        run.count(f"translated-rel: {label.split('|')[0]} -> " + (wres["err"] if "err" in wres else "value")
+                  + (f" calls={len(want['calls'])}" if "calls" in want else ""))
+        if got != want:
+            bad += 1
+            if bad == 1:
+                run.disagreements.append({"part": "translated source vs python", "function": label, "args": list(raw), "impl": {"python": want}, "model": got,
+                                          "what": "the translated rel branch / canonicaliser (Generated.Src.rel_range, canon_subject, canon_resource) and the real "
+                                                  "eval_condition / function differ in result, checker calls or final memo"})
+    if skipped:
+        run.hist["translated-rel: outside the value universe (not evaluated)"] = skipped
+    if unrepresented:
+        run.hist["translated-rel: an operation that is deliberately not represented (not compared)"] = unrepresented
+    run.evaluations += len(calls)
+    return bad == 0, f"{bad} of {len(calls)} evaluations differ" if bad else f"agree on {len(calls) - unrepresented} evaluations"
+
+
 def check(run: lib.Run, audit: dict) -> int:
     run.rule = ("exhaustive: ordered pairs of 14 rel-condition templates (short/extended form, literal and attribute overrides with/without ':', ctx "
                 "merge, repeated and reordered-ctx lookups, and/or/not) × 3 algorithms × 4 requests × 5 checker tables (all-true, all-false, raising, "
@@ -221,12 +422,48 @@ def check(run: lib.Run, audit: dict) -> int:
                        "the recording checker answers from a table keyed by the triple (deterministic within a decision)"]
     if not audit["ok"]:
         raise lib.CheckError(f"Lean build/audit failed at {audit['stage']}: {audit.get('log') or audit.get('forbidden') or audit.get('bad_axioms')}")
-    run_cases(run, audit, scale=run.boost)
+    # the `rel` branch of eval_condition and the two canonicalisers as they are written NOW, translated into Lean (state-and-exception-
+    # passing), are proved to do what the model's relQuery / evalRel / evalRelM say (per-run obligation); the translation itself is
+    # compared with CPython
+    trr = audit["facts"].get("translated_rel")
+    rel = trr.get("rel") if isinstance(trr, dict) else None
+    rel_failed = (trr or {}).get("extraction_failed") if isinstance(trr, dict) else None
+    if isinstance(rel, dict) and "extraction_failed" in rel:
+        rel_failed = rel["extraction_failed"]
+    ok_tr, detail_tr = lib.run_obligation("C13_translated", deps=["C04_translated"])
+    run.obligation("C13_translated: Generated.Src.rel_range / canon_subject / canon_resource (the current source text of the `rel` branch of "
+                   "eval_condition and of _canon_subject / _canon_resource; ContextVars as parameters: checker outcome function, memo state, "
+                   "event loop; externals getattr, _ctx_hash, resolve_awaitable_in_worker) = the model's relQuery / evalRel / evalRelM: the same "
+                   "canonical triple and merged context handed to the checker, fail closed without a checker and on a raise, memo probed before the "
+                   "call and stored after it, for every well-formed env, rel expression, checker outcome function and memo state", ok_tr,
+                   "discharged" if ok_tr else (str(rel_failed) if rel_failed else detail_tr))
+    if rel_failed or not isinstance(rel, dict):
+        ok_py, detail_py = True, "skipped: the rel branch is not in the translatable subset (see C13_translated)"
+    else:
+        ok_py, detail_py = translated_vs_python(run)
+    run.obligation("translated rel branch / canonicalisers evaluate like the real eval_condition({'rel': …}) / _canon_*: result or exception, "
+                   "checker calls, final memo (harness/pytolean_rel.py + Model/PyRel.lean vs CPython)", ok_py, detail_py)
+    tr_dis = [d for d in run.disagreements if d.get("part") == "translated source vs python"]
+    run.disagreements = [d for d in run.disagreements if d.get("part") != "translated source vs python"]
+    run_cases(run, audit, scale=run.boost * (1 if ok_tr else 2))
     check_isolation(run)
     check_nested(run)
     violations = []
     if run.disagreements and not run.spec_failures:
         run_cases(run, audit, scale=3)
+    if not run.spec_failures and not run.disagreements and not ok_tr:
+        path = run.write_replay("obligation", {"what": "per-run obligation Rbacx/Run/C13_translated.lean no longer checks: the translated source of the `rel` "
+                                               "branch of eval_condition / _canon_subject / _canon_resource is not proved to do what the model's relQuery / "
+                                               "evalRel / evalRelM say (canonical triple, fail closed, memo lookup before and store after the call), the "
+                                               "functions theorems Rbacx.C13.* are about; the widened search found no request whose decision or checker-call "
+                                               "sequence differs from the model's",
+                                               "translation": rel_failed, "lean": detail_tr[-1500:], "first_disagreement": tr_dis[:1]})
+        violations.append((path, False))
+    elif not run.spec_failures and not run.disagreements and (tr_dis or not ok_py):
+        first = tr_dis[0] if tr_dis else {"part": "translated source vs python", "what": detail_py}
+        path = run.write_replay("correspondence", {"what": "translated source vs python: " + str(first.get("what")) + "; the obligation C13_translated rests on "
+                                                   "a translation that CPython contradicts (or that could not be evaluated)", "first": first, "count": len(tr_dis)})
+        violations.append((path, False))
     if run.spec_failures:
         path = run.write_replay("spec", {"what": "C13 violated on the real engine", "case": run.spec_failures[0], "count": len(run.spec_failures)})
         violations.append((path, True))
